@@ -253,7 +253,12 @@ static void do_resume(int j)
 {
     proc *t = &PR[j];
     if (!t->started || t->finished || t->op != OP_YIELD) return;
-    const int64_t sig = 3000 + (int64_t)(W.sigctr++);
+    /* the tutorials resume yielded processes with the success code: do that too, when no other resume is on its way to the
+     * same process in this instant (a second one would reach its next call, where 0 cannot be told from the call's own success) */
+    bool other = false;
+    for (int i = 0; i < t->ncs; i++) if (t->cs[i].kind == CK_RESUME && t->cs[i].state == CS_ARMED && t->cs[i].due == tnow()) other = true;
+    int64_t sig = 3000 + (int64_t)(W.sigctr++);
+    if (!other && (sig % 4) == 0) { sig = CMB_PROCESS_SUCCESS; PROBE("c04.resume_with_success_code"); }
     cause_add(t, CK_RESUME, sig, tnow(), false);
     TR2("resume", j, sig);
     cmb_process_resume(t->pp, sig);
